@@ -925,7 +925,7 @@ theorem runOps_eq_run : ∀ (ops : List AstStore.Op) (s s' : AstStore.Store), ru
 
 
 /-- what `importDump` returns on success: the store is the result of running setter calls that all go through `astOperand1/2` -/
-theorem importDump_ok {file0 text : Str} {m m2 m3 : Bool} {im : Imported} (h : importDump file0 text m m2 m3 = .ok im) :
+theorem importDump_ok {file0 text : Str} {im : Imported} (h : importDump file0 text = .ok im) :
     ∃ (ops : List SetOp), im.ops = ops.map SetOp.toOp ∧ runOps (AstStore.init im.toks.size) (ops.map SetOp.toOp) = .ok im.store := by
   unfold importDump at h
   split at h
@@ -939,13 +939,13 @@ theorem importDump_ok {file0 text : Str} {m m2 m3 : Bool} {im : Imported} (h : i
         cases h
         exact ⟨st.ops.toList, rfl, hrun⟩
 
-theorem import_ops_viaOperands {file0 text : Str} {m m2 m3 : Bool} {im : Imported} (h : importDump file0 text m m2 m3 = .ok im) :
+theorem import_ops_viaOperands {file0 text : Str} {im : Imported} (h : importDump file0 text = .ok im) :
     im.ops.all AstStore.Op.viaOperands = true := by
   obtain ⟨ops, ho, _⟩ := importDump_ok h
   rw [ho]
   simp [List.all_map, toOp_viaOperands]
 
-theorem import_store_inv {file0 text : Str} {m m2 m3 : Bool} {im : Imported} (h : importDump file0 text m m2 m3 = .ok im) :
+theorem import_store_inv {file0 text : Str} {im : Imported} (h : importDump file0 text = .ok im) :
     AstStore.Inv im.store := by
   obtain ⟨ops, _, hr⟩ := importDump_ok h
   rw [runOps_eq_run _ _ _ hr]
